@@ -22,6 +22,27 @@ def xmlString (ansi : List Char → List Char) (s : List Char) : List Char :=
     xmlStringNew ansi (data.filter (fun c => !Gen.junitNoncharsRemoved.contains c.toNat))
   else data
 
+/-- what was captured of an attempt (`ChildExecutionOutput`) -/
+inductive OutKind where
+  /-- `Split` with both streams -/
+  | split
+  | splitStdoutOnly | splitStderrOnly | splitNeither
+  | combined
+  /-- the process could not be started -/
+  | startError
+  deriving DecidableEq, Repr
+
+/-- junit.rs `set_execute_status_props`, the stored texts before `xml_string`: (system-out, system-err) for captured
+    standard output `o`, standard error `e`, or combined output `o` -/
+def storedStreams (k : OutKind) (o e : List Char) : List Char × List Char :=
+  match k with
+  | .split => (o, e)
+  | .splitStdoutOnly => (o, Gen.junitStderrNotCaptured.toList)
+  | .splitStderrOnly => (Gen.junitStdoutNotCaptured.toList, e)
+  | .splitNeither => (Gen.junitStdoutNotCaptured.toList, Gen.junitStderrNotCaptured.toList)
+  | .combined => (o, Gen.junitStdoutStderrCombined.toList)
+  | .startError => (Gen.junitProcessFailedToStart.toList, Gen.junitProcessFailedToStart.toList)
+
 /-- XML 1.0 §2.2 `Char` -/
 def XmlChar (c : Char) : Prop :=
   c.toNat = 0x9 ∨ c.toNat = 0xA ∨ c.toNat = 0xD ∨ (0x20 ≤ c.toNat ∧ c.toNat ≤ 0xD7FF) ∨ (0xE000 ≤ c.toNat ∧ c.toNat ≤ 0xFFFD) ∨
